@@ -36,6 +36,7 @@ def run(chk: Check) -> None:
     run_only_once_slot(chk, ix, "R13.10")
     run_notes_carry_code(chk, ix)
     run_watchers_see_everything(chk, ix)
+    run_state_asks_about_its_own_module(chk, ix)
     aei = ix.func("mypy.errors.Errors.add_error_info")
     g = CFG(aei.node)
 
@@ -614,3 +615,31 @@ def run_watchers_see_everything(chk: Check, ix) -> None:
             r.ok(key, f.loc(filt[0].stmt))
         else:
             r.violation(key, f.loc(early[0].stmt), f"the `return` at line {early[0].stmt.lineno} is reachable without passing `self._filter_error(...)`: an error dropped here (disabled code, ignored line) is invisible to the watchers, a speculative check then succeeds where it fails by default, another overload item / operator method is chosen and diagnostics with *other* codes change when a code is disabled")
+
+
+def run_state_asks_about_its_own_module(chk: Check, ix) -> None:
+    """R13.13: a per-module question to the Errors object is asked after the module has been made current."""
+    from ..cfg import CFG
+    r = chk.rule("R13.13", "Errors.is_error_code_enabled answers from Errors.options, the options of the file passed to set_file() last. A build.State method that asks it (whether to produce per-module diagnostics such as ignore-without-code) first makes its own module current (`self.manager.errors.set_file(self.xpath, self.id, self.options)` on every path to the question), or answers from self.options directly as generate_unused_ignore_notes does: otherwise, inside an import cycle, the answer is that of whichever module of the cycle was finished last, and the diagnostics depend on the order of the files on the command line", floor=1)
+    st = ix.cls("mypy.build.State")
+    n = 0
+    for name, f in sorted(st.methods.items()):
+        asks = [c for c in ast.walk(f.node) if isinstance(c, ast.Call) and call_name(c) == "is_error_code_enabled" and norm(c.func).startswith("self.manager.errors.")]
+        if not asks:
+            continue
+        n += 1
+        g = CFG(f.node)
+
+        def node_of(call):
+            for nd in g.nodes:
+                if nd.stmt is not None and any(x is call for x in ast.walk(nd.stmt.test if nd.kind == "test" and hasattr(nd.stmt, "test") else nd.stmt)):
+                    return nd
+            return None
+        sets = [nd for nd in g.nodes if nd.kind == "stmt" and any(isinstance(c, ast.Call) and call_name(c) == "set_file" and c.args and norm(c.args[0]) in ("self.xpath", "self.path") for c in ast.walk(nd.stmt))]
+        key = f"State.{name}: the module is made current before Errors is asked about an error code"
+        nodes = [node_of(c) for c in asks]
+        if all(nd is not None and sets and g.must_pass(g.entry, [nd], sets, labels_excluded=("exc",)) for nd in nodes):
+            r.ok(key, f.loc(asks[0]))
+        else:
+            r.violation(key, f.loc(asks[0]), "`self.manager.errors.is_error_code_enabled(...)` is asked without a preceding set_file(self.xpath, ...): with `[mypy-a] enable_error_code = ignore-without-code` and a cycle a <-> b, `mypy a.py b.py` reports the error in both modules and `mypy b.py a.py` in none")
+    # no asker at all: the instance floor of the rule reports it (as a note when the property already has a violation)
